@@ -29,8 +29,13 @@ fn cfail(class: &str, f: &F, message: String) -> Failure {
 
 /// Inject one invalidity at the position selected by `pos` (if such a position exists).
 pub fn inject(f: &F, kind: u8, pos: u16) -> Option<F> {
+    inject_named(f, kind, pos, "no_such_variable")
+}
+
+/// `unknown`: the proposition name used for the "unknown proposition" invalidity.
+pub fn inject_named(f: &F, kind: u8, pos: u16, unknown: &str) -> Option<F> {
     // count candidate positions, then rebuild with the chosen one changed
-    fn walk(f: &F, kind: u8, target: &mut i64, scope: &mut Vec<String>) -> F {
+    fn walk(f: &F, kind: u8, target: &mut i64, scope: &mut Vec<String>, unknown: &str) -> F {
         let hit = |target: &mut i64| {
             *target -= 1;
             *target == -1
@@ -44,20 +49,20 @@ pub fn inject(f: &F, kind: u8, pos: u16) -> Option<F> {
             }
             F::Prop(p) => {
                 if kind == 3 && hit(target) {
-                    return F::Prop("no_such_variable".into());
+                    return F::Prop(unknown.to_string());
                 }
                 F::Prop(p.clone())
             }
             F::Const(_) | F::Wild(_) => f.clone(),
-            F::Un(op, a) => F::Un(*op, Box::new(walk(a, kind, target, scope))),
+            F::Un(op, a) => F::Un(*op, Box::new(walk(a, kind, target, scope, unknown))),
             F::Bin(op, a, b) => F::Bin(
                 *op,
-                Box::new(walk(a, kind, target, scope)),
-                Box::new(walk(b, kind, target, scope)),
+                Box::new(walk(a, kind, target, scope, unknown)),
+                Box::new(walk(b, kind, target, scope, unknown)),
             ),
             F::Hyb(HybOp::Jump, v, d, a) => {
                 let v = if kind == 1 && hit(target) { "free_j".to_string() } else { v.clone() };
-                F::Hyb(HybOp::Jump, v, d.clone(), Box::new(walk(a, kind, target, scope)))
+                F::Hyb(HybOp::Jump, v, d.clone(), Box::new(walk(a, kind, target, scope, unknown)))
             }
             F::Hyb(op, v, d, a) => {
                 // re-quantification: an inner binder takes the name of an enclosing one; its own
@@ -87,7 +92,7 @@ pub fn inject(f: &F, kind: u8, pos: u16) -> Option<F> {
                     return F::Hyb(*op, outer, d.clone(), Box::new(body));
                 }
                 scope.push(v.clone());
-                let body = walk(a, kind, target, scope);
+                let body = walk(a, kind, target, scope, unknown);
                 scope.pop();
                 F::Hyb(*op, v.clone(), d.clone(), Box::new(body))
             }
@@ -98,14 +103,14 @@ pub fn inject(f: &F, kind: u8, pos: u16) -> Option<F> {
     {
         let mut probe = i64::MAX / 2;
         let start = probe;
-        let _ = walk(f, kind, &mut probe, &mut vec![]);
+        let _ = walk(f, kind, &mut probe, &mut vec![], unknown);
         counter += start - probe;
     }
     if counter == 0 {
         return None;
     }
     let mut target = gen::idx(pos, counter as usize) as i64;
-    Some(walk(f, kind, &mut target, &mut vec![]))
+    Some(walk(f, kind, &mut target, &mut vec![], unknown))
 }
 
 /// quantifier names by nesting depth in a tree; Err if one depth carries two names
